@@ -20,6 +20,7 @@ pub fn sections(cfg: &RunCfg) -> Vec<Box<dyn AnySection>> {
     param_sets(cfg)
         .into_iter()
         // the exact-phase oracle costs ~10x a plain transition: in the quick tier the depth-2 closure is kept for three sets only
+        .filter(|(name, _, _, _)| !quick || !["bfv_p2_pow2", "bgv_p4", "bfv_p11_short", "bgv_p8_spenc"].contains(&name.as_str()))
         .map(|(name, spec, depth, abs)| {
             let deep = ["bfv_p1", "bgv_p5_t5", "bgv_p12_short"].contains(&name.as_str());
             (name, spec, if quick && !deep { 1 } else { depth }, abs)
